@@ -287,31 +287,60 @@ def s01c_single_slot_mapping(ctx):
             b = m.body(m.impl_fn_path(i, 'index'), prefer_mono=False)
             if b:
                 observers.append(('index', b))
+    def locate(b, param, depth):
+        """(body, block, call) of the slice_index call that receives `param` of b unchanged, looking through crate-local helpers"""
+        for bi, t in b.calls():
+            d = callee_def_(t) or ''
+            if d == slot_fn:
+                if len(t['args']) > 1:
+                    a1 = _strip(b.tree_of_operand(t['args'][1]))
+                    if a1[0] == 'arg' and a1[1] == param:
+                        return (b, bi, t)
+                    return (b, bi, None)
+        if depth >= 3:
+            return None
+        for bi, t in b.calls():
+            d = callee_def_(t) or ''
+            if not t['callee'].get('local') or d == slot_fn:
+                continue
+            hb = f.generic_body(d)
+            if hb is None:
+                continue
+            for k, a in enumerate(t['args']):
+                tr = _strip(b.tree_of_operand(a))
+                if tr[0] == 'arg' and tr[1] == param:
+                    got = locate(Body(hb), k + 1, depth + 1)
+                    if got:
+                        return got
+        return None
+
     for name, b in observers:
         key = 'Window|%s' % name
         r.inst(key)
-        calls = [(bi, t) for bi, t in b.calls() if (callee_def_(t) or '') == slot_fn]
-        if len(calls) != 1:
-            r.violate(key + '|slot-mapping-bypassed', 'Window::%s does not compute its slot through slice_index (%d calls): indexed observers may disagree '
-                      'about which element a logical index denotes' % (name, len(calls)), b.file, b.line)
+        got = locate(b, 2, 0)
+        if got is None:
+            r.violate(key + '|slot-mapping-bypassed', 'Window::%s does not obtain its slot from slice_index (directly or through a helper): indexed observers may disagree '
+                      'about which element a logical index denotes' % name, b.file, b.line)
             continue
-        bi, t = calls[0]
-        a1 = _strip(b.tree_of_operand(t['args'][1]))
-        if not (a1[0] == 'arg' and a1[1] == 2):
-            r.violate(key + '|slot-of-other-index', 'Window::%s maps %s instead of its own index parameter' % (name, tree_str(a1)[:50]), b.file, b.term_line(bi))
+        hb, bi, t = got
+        if t is None:
+            r.violate(key + '|slot-of-other-index', 'Window::%s maps something else than its own index parameter' % name, hb.file, hb.term_line(bi))
+            continue
+        if hb is not b:
+            r.sample({'observer': 'Window::' + name, 'slot': 'slice_index(own index) through helper %s' % hb.defp})
             continue
         # the buffer must be indexed with the mapped slot: some later use of buf takes a value derived from the call
         used = False
         for bj, t2 in b.calls():
-            if t2['callee'].get('name') in ('get', 'get_unchecked', 'index') and bj != bi:
+            if bj != bi:
                 for a in t2['args'][1:]:
                     tr = b.tree_of_operand(a)
                     if any(x[0] == 'call' and x[3] == bi for x in walk_tree(tr)):
                         used = True
         for bj in range(b.n):
-            for s in b.blocks[bj]['stmts']:
-                if s['s'] == 'assign' and s['rv']['r'] in ('ref', 'use'):
-                    pl = s['rv'].get('pl') or (s['rv'].get('a') or {}).get('pl')
+            for s_ in b.blocks[bj]['stmts']:
+                if s_['s'] == 'assign' and s_['rv']['r'] in ('ref', 'use'):
+                    pl = s_['rv'].get('pl') or (s_['rv'].get('a') or {}).get('pl')
                     if pl and any(e['p'] == 'index' for e in pl['p']):
                         for e in pl['p']:
                             if e['p'] == 'index':
@@ -319,7 +348,7 @@ def s01c_single_slot_mapping(ctx):
                                 if any(x[0] == 'call' and x[3] == bi for x in walk_tree(tr)):
                                     used = True
         if not used:
-            r.violate(key + '|slot-unused', 'Window::%s calls slice_index but does not index the buffer with its result' % name, b.file, b.term_line(bi))
+            r.violate(key + '|slot-unused', 'Window::%s calls slice_index but does not use its result to reach the buffer' % name, b.file, b.term_line(bi))
         else:
             r.sample({'observer': 'Window::' + name, 'slot': 'slice_index(own index) -> buffer access'})
     r.floor('indexed observers', 2, len(observers))
@@ -482,12 +511,17 @@ def s03_sibling_constructors(ctx):
                     if cb is not None:
                         for cbi, ct in cb.calls():
                             if ct['callee'].get('name') in ('partial_cmp', 'total_cmp') and any(a in ('f64', 'f32', '&f64', '&f32') for a in ct['callee'].get('args', [])):
-                                numeric = True
+                                # ascending: compares the closure's first parameter with its second, result not reversed
+                                a0 = _strip(cb.tree_of_operand(ct['args'][0]))
+                                a1 = _strip(cb.tree_of_operand(ct['args'][1]))
+                                in_order = a0[0] == 'arg' and a1[0] == 'arg' and a0[1] < a1[1]
+                                reversed_ = any((c2['callee'].get('name') or '') in ('reverse', 'then', 'then_with') for _, c2 in cb.calls())
+                                numeric = in_order and not reversed_
                     if cl[0] == 'fn' and cl[1].endswith('total_cmp'):
                         numeric = True
                 r.inst(key + '|sort-order')
                 if not numeric:
-                    r.violate(key + '|sort-order|' + nm, 'SMM::deserialize sorts the restored slice with `%s` whose order is not the numeric order of f64 (partial_cmp / total_cmp): '
+                    r.violate(key + '|sort-order|' + nm, 'SMM::deserialize sorts the restored slice with `%s` whose order is not the ascending numeric order of f64 (partial_cmp / total_cmp of the first with the second element): '
                               'next() searches the slice by numeric order, so a restored SMM with negative values is inconsistent' % nm, b.file, b.term_line(bi))
     if 'new' in canon_forms and 'deserialize' in canon_forms:
         for k in ('half', 'half_m1'):
